@@ -218,11 +218,17 @@ func execScript(s *scriptScn) *scriptObs {
 		case "drain":
 			if needConn() {
 				r = actRes{Kind: "ok"}
-				errs := 0
+				errs, frames := 0, 0
 				for errs < drainErrors {
 					x := bounded(func() actRes { return readOnce(cn) })
 					if x.Kind == "data" {
 						errs = 0
+						frames++
+						if frames > s.QLen+16 {
+							// a queue holds at most QLen frames: this is not a drain any more
+							r.Items = append(r.Items, actRes{Kind: "panic", Err: "Read keeps returning frames on a closed connection"})
+							break
+						}
 						r.Items = append(r.Items, x)
 						continue
 					}
